@@ -90,7 +90,11 @@ def parse_row(ints, with_play):
 
 def build(tracks, tpb, ftype=1):
     import mido
-    mid = mido.MidiFile(type=ftype, ticks_per_beat=tpb)
+    if len(tracks) % 2:
+        mid = mido.MidiFile(type=ftype, ticks_per_beat=tpb)
+    else:
+        mid = mido.MidiFile(type=ftype, ticks_per_beat=tpb * 2 + 1)
+        mid.ticks_per_beat = tpb             # the resolution is an ordinary attribute
     for t, tr in enumerate(tracks):
         mid.tracks.append(mido.MidiTrack(mk(k, dt, 10 * (t + 1) + i + 1) for i, (dt, k) in enumerate(tr)))
     return mid
